@@ -70,6 +70,8 @@ def e2e_item(c):
 
 
 def run(ctx):
+    if ctx.replay:
+        return T.replay(ctx)
     ctx.add_obligations(vcheck.coq_props("Table", "C11"))
     ctx.cov["checker_cmd"] = ("coqc -Q coq/Table BWTable coq/Table/Props/C11.v; work/bin/h_table -mode reduce|e2e11|replay11; "
                               "Corr.reduce_verdict / e2e11_verdict evaluated by vm_compute")
